@@ -139,6 +139,27 @@ func checkC14(ctx *Ctx, c *Case) error {
 			return fmt.Errorf("DiscardUnknown result differs (unknown must vanish at every depth, nothing else may change): %s", diffStr(got, wantDiscard))
 		}
 	}
+	// replace-then-restore on the decoded message: the slice GetUnknown handed
+	// out must survive a SetUnknown of something else, and storing it back
+	// restores the set exactly
+	if orig := p.ProtoReflect().GetUnknown(); len(orig) > 0 {
+		keep := append([]byte{}, orig...)
+		other := protoreflect.RawFields(unhex(c.Bytes2))
+		if len(other) == 0 {
+			other = protoreflect.RawFields{0xf8, 0x07, 0x01}
+		}
+		p.ProtoReflect().SetUnknown(other)
+		if !bytes.Equal(orig, keep) {
+			return fmt.Errorf("SetUnknown wrote into the slice an earlier GetUnknown returned: %s -> %s", hexs(keep), hexs(orig))
+		}
+		p.ProtoReflect().SetUnknown(orig)
+		if got := p.ProtoReflect().GetUnknown(); !bytes.Equal(got, keep) {
+			return fmt.Errorf("restoring the unknown set after replacing it gives %s, want %s", hexs(got), hexs(keep))
+		}
+		if got := canonI(p); got != want {
+			return fmt.Errorf("message differs after replacing and restoring its unknown set: %s", diffStr(got, want))
+		}
+	}
 	// SetUnknown / GetUnknown
 	u := protoreflect.RawFields(unhex(c.Bytes2))
 	p3 := model.BuildP(t, d.ProtoReflect())
